@@ -115,25 +115,28 @@ Theorem C17_after_close : forall limit ovf ops more, Forall live ops ->
 Proof. exact after_close. Qed.
 Print Assumptions C17_after_close.
 
-(* Operating-system faults at a representation change (Proof/BuffersFault.v).
-   [step_f flt] is [step] with the environment interfering while the operation
-   constructs a new file based buffer; [step] is [step_f FNone].
+(* Operating-system faults at a representation change (Proof/BuffersFault.v; the
+   code after /repo commit c9585b7).  [step_f flt] is [step] with the environment
+   interfering while the operation constructs or fills a file based buffer;
+   [step] is [step_f FNone].
 
-   FCtor k: creating the file object of the new buffer of kind k raises (KTmp:
-   TemporaryFile() with EMFILE / ENOSPC / EACCES; KBio: BytesIO() with MemoryError),
-   at any operation of any history.  If the
+   For EVERY fault of the model -- FCtor k: creating the file object of the new
+   buffer of kind k raises (KTmp: TemporaryFile() with EMFILE / ENOSPC / EACCES;
+   KBio: BytesIO() with MemoryError); FCopyWrite: the copy loop's file.write raises
+   while a BytesIO is spilled to a temporary file; FCreateWrite: the write of
+   _create_buffer's buf.append(self.strbuf) raises; FAppendWrite: the write of
+   append()'s buf.append(s) raises -- at any operation of any history:  if the
    operation answers the fault, the exception has propagated, the invariant holds,
    the buffer holds the queue it held before -- or, for an append() in a file
-   representation, that queue plus the appended bytes (buf.append(s) precedes the
-   spill) --, len is truthful, and every continuation refines the FIFO queue again.
-   If it does not answer the fault the operation built nothing and is [step].
-   This is the statement [fault_atomicity] for every FCtor k; it is FALSE for
-   FCopyWrite (known finding kf_c17_spill_copy_fault), see the next theorem. *)
-Theorem C17_fault_atomicity_partial :
-  forall k limit ovf ops p more, Forall live ops -> live p -> Forall live more ->
+   representation whose bytes were written before the spill was attempted, that
+   queue plus the appended bytes --, len is truthful, and every continuation
+   refines the FIFO queue again.  If it does not answer the fault the operation is
+   [step]. *)
+Theorem C17_fault_atomicity :
+  forall flt limit ovf ops p more, Forall live ops -> live p -> Forall live more ->
   let o := exec limit ovf o_new ops in
   let q := q_exec_op q_empty ops in
-  let r := step_f (FCtor k) limit ovf o p in
+  let r := step_f flt limit ovf o p in
   let o' := fst r in
   (snd r <> RExn OSFault -> r = step limit ovf o p) /\
   (snd r = RExn OSFault ->
@@ -143,19 +146,38 @@ Theorem C17_fault_atomicity_partial :
      let o'' := exec limit ovf o' more in
      inv o'' /\ abs o'' = q_exec_op (abs o') more /\ o_len o'' = q_len (abs o'') /\
      forall p', live p' -> out_ok (abs o'') p' (snd (step limit ovf o'' p'))).
-Proof. exact fault_ctor_history. Qed.
-Print Assumptions C17_fault_atomicity_partial.
+Proof. exact fault_history. Qed.
+Print Assumptions C17_fault_atomicity.
 
-(* FCopyWrite: the copy loop's file.write raises while a BytesIO is being spilled to
-   a temporary file (ENOSPC).  FileBasedBuffer.__init__ has rewound and read the
-   source file and does not put its position back, and self.buf is still that
-   source: STRBUF_LIMIT 4, overflow 6, append 5 bytes, append 2 bytes with the
-   fault -> len() = 7 but get() yields nothing (Proof/BuffersFault.v,
-   fault_copy_write_refuted; BuffersExamples.ex_fault_copy_write).  The file's
-   content is complete, only its position is wrong (fault_copy_write_content). *)
-Theorem C17_fault_atomicity_refuted : ~ fault_atomicity FCopyWrite.
-Proof. exact fault_copy_write_not_atomic. Qed.
-Print Assumptions C17_fault_atomicity_refuted.
+(* Every clause of the theorem above is met by a concrete history: each fault is
+   answered somewhere, and the "plus the appended bytes" case is real. *)
+Theorem C17_fault_cases_reachable :
+  let o := exec 4 6 o_new [OAppend [1;2;3;4;5]%N] in
+  (forall flt, In flt [FCtor KTmp; FCopyWrite] ->
+     snd (step_f flt 4 6 o (OAppend [6;7]%N)) = RExn OSFault /\
+     abs (fst (step_f flt 4 6 o (OAppend [6;7]%N))) = abs o ++ [6;7]%N) /\
+  snd (step_f FAppendWrite 4 6 o (OAppend [6;7]%N)) = RExn OSFault /\
+  fst (step_f FAppendWrite 4 6 o (OAppend [6;7]%N)) = o /\
+  step_f FCreateWrite 4 6 (exec 4 6 o_new [OAppend [1;2]%N]) (OGet 1 true) =
+    (exec 4 6 o_new [OAppend [1;2]%N], RExn OSFault).
+Proof. exact fault_append_case_reachable. Qed.
+Print Assumptions C17_fault_cases_reachable.
+
+(* The shape of FileBasedBuffer.__init__ before c9585b7 (the source file is put
+   back to its read position only when the copy succeeds): with the copy loop's
+   write failing the surviving BytesIO was left at its end -- remain 7, nothing
+   readable -- while the repaired constructor leaves it exactly as it was.  A
+   revert of the repair makes K-buf-fault disagree with [step_f] on this history. *)
+Theorem C17_fault_old_shape_refuted :
+  exists b, fb_inv b /\
+    match fb_init_old FCopyWrite KTmp (Some b) with
+    | InitExn OSFault (Some b') =>
+        ~ fb_inv b' /\ fb_remain b' = 7 /\ fb_abs b' = [] /\ f_content (fb_file b') = f_content (fb_file b)
+    | _ => False
+    end /\
+    fb_init FCopyWrite KTmp (Some b) = InitExn OSFault (Some b).
+Proof. exact fault_copy_write_refuted_old. Qed.
+Print Assumptions C17_fault_old_shape_refuted.
 
 (* ReadOnlyFileBasedBuffer: prepare(size) leaves the wrapped file where it was and
    answers P <= size; from then on the buffer is the FIFO queue that initially
